@@ -30,8 +30,10 @@ import (
 	_ "github.com/honeytrap/honeytrap/services/eos"
 	_ "github.com/honeytrap/honeytrap/services/ethereum"
 	_ "github.com/honeytrap/honeytrap/services/ftp"
+	_ "github.com/honeytrap/honeytrap/services/ldap"
 	_ "github.com/honeytrap/honeytrap/services/redis"
 	_ "github.com/honeytrap/honeytrap/services/smtp"
+	_ "github.com/honeytrap/honeytrap/services/telnet"
 	"github.com/honeytrap/honeytrap/storage"
 	"verif/harness/hx"
 	"verif/harness/lab"
@@ -58,7 +60,7 @@ type Obs struct {
 }
 
 var svcCode = map[string]int{"ftp": 1, "smtp": 2, "redis": 3, "memcached": 4, "http": 5, "docker": 6,
-	"elasticsearch": 7, "eos": 8, "ethereum": 9, "cwmp": 10,
+	"elasticsearch": 7, "eos": 8, "ethereum": 9, "cwmp": 10, "telnet": 11, "ldap": 12,
 	"memcached-udp": 20, "tftp": 21, "counterstrike": 22, "dns": 23}
 
 var svcReg = map[string]string{"memcached-udp": "memcached"}
@@ -71,7 +73,7 @@ func regName(s string) string {
 }
 
 var svcPort = map[string]int{"ftp": 21, "smtp": 25, "redis": 6379, "memcached": 11211, "http": 80, "docker": 2375,
-	"elasticsearch": 9200, "eos": 8888, "ethereum": 8545, "cwmp": 7547, "memcached-udp": 11211, "tftp": 69,
+	"telnet": 23, "ldap": 389, "elasticsearch": 9200, "eos": 8888, "ethereum": 8545, "cwmp": 7547, "memcached-udp": 11211, "tftp": 69,
 	"counterstrike": 27015, "dns": 53}
 
 // ---- recording channel ----
@@ -125,6 +127,17 @@ func toEv(e event.Event) Ev {
 		ev = &Ev{12, fields(e, "counterstrike.query", "payload")}
 	case "dns":
 		ev = &Ev{13, fields(e, "dns.id")}
+	case "telnet":
+		switch ty {
+		case "connect":
+			ev = &Ev{15, nil}
+		case "password-authentication":
+			ev = &Ev{16, fields(e, "telnet.username", "telnet.password")}
+		case "session":
+			ev = &Ev{17, fields(e, "telnet.command")}
+		}
+	case "ldap":
+		ev = &Ev{18, []hx.B{hx.B(anyField(e, "ldap.message-id")), hx.B(e.Get("ldap.request-type"))}}
 	default:
 		ev = &Ev{99, []hx.B{hx.B(cat), hx.B(ty)}}
 	}
@@ -155,12 +168,24 @@ func (r *recorder) snapshot() []Ev {
 
 // ftp and smtp hand every line to a per-connection pump goroutine that sends the event; the
 // pump ends with its connection (9efeaf2, 7ad8491).  All events of a connection have been
-// sent once every goroutine the case started has exited, i.e. the goroutine count is back
-// at what it was before the case.  Fallback (count does not come back within 2 s, e.g. a
-// pump that no longer ends): wait for 20 ms without a new event.
-func (r *recorder) quiesce(baseline int) {
+// sent once no goroutine started inside (*Service).Handle / (*ftpService).Handle exists any
+// more (looked up in the goroutine dump; a goroutine count would be disturbed by the timer
+// goroutines of old connection deadlines).  Fallback (a pump that no longer ends): 2 s, then
+// 20 ms without a new event.  All other services send from the goroutine that runs Handle.
+var stackBuf = make([]byte, 4<<20)
+
+func pumpsAlive() bool {
+	n := runtime.Stack(stackBuf, true)
+	d := string(stackBuf[:n])
+	return strings.Contains(d, "services/smtp.(*Service).Handle.func") || strings.Contains(d, "services/ftp.(*ftpService).Handle.func")
+}
+
+func (r *recorder) quiesce(svc string) {
+	if svc != "ftp" && svc != "smtp" {
+		return
+	}
 	deadline := time.Now().Add(2 * time.Second)
-	for runtime.NumGoroutine() > baseline {
+	for pumpsAlive() {
 		if time.Now().After(deadline) {
 			last, stable := r.count(), 0
 			for i := 0; i < 4000 && stable < 40; i++ {
@@ -242,7 +267,6 @@ func segments(in Input) [][]byte {
 func runTCP(in Input) (Obs, string) {
 	svc, rec := theService(in.Svc)
 	before := rec.count()
-	baseline := runtime.NumGoroutine()
 	sc, cc := lab.Pipe(&net.TCPAddr{IP: net.ParseIP("192.0.2.1"), Port: svcPort[in.Svc]}, &net.TCPAddr{IP: net.ParseIP("198.51.100.7"), Port: 40000})
 	wc := &watchConn{Conn: sc}
 	type fin struct {
@@ -330,7 +354,7 @@ func runTCP(in Input) (Obs, string) {
 			return Obs{Events: rec.snapshot()[before:]}, "Handle did not return 5 s after the client closed the connection"
 		}
 	}
-	rec.quiesce(baseline)
+	rec.quiesce(in.Svc)
 	return Obs{Events: rec.snapshot()[before:], Code: result.code, Panic: result.msg}, ""
 }
 
